@@ -133,6 +133,9 @@ def _one_case(rng, k, force=None):
             sampler["smoothing"] = True
         if sm == "single_pass" and metric.get("name") == "eer":
             metric = {"type": "name", "name": "tpr", "kwargs": {"threshold": thr_enc}}
+    if sampler["type"] in ("shift", "loo", "identity") and rng.random() < 0.5:
+        # a callable sampler is used whatever the other fields of the config say
+        sampler["stratified"] = rng.choice(["by_label"] + (["by_group", "by_group"] if kind == "group" else []))
     sampler = force.get("sampler", sampler)
     if kind == "sub" and sampler["type"] == "builtin":
         # the built-in samplers of Scores return plain Scores objects; a user subclass is only exercised with custom samplers
@@ -288,7 +291,8 @@ def run_impl(case):
             return None, BootstrapConfig(nb_samples=case["nb_samples"], bootstrap_method=case["bootstrap_method"],
                                          sampling_method=sp["value"])
         c = Counting()
-        return c, BootstrapConfig(nb_samples=case["nb_samples"], bootstrap_method=case["bootstrap_method"], sampling_method=c)
+        return c, BootstrapConfig(nb_samples=case["nb_samples"], bootstrap_method=case["bootstrap_method"], sampling_method=c,
+                                  stratified_sampling=sp.get("stratified"))
 
     def flat(a):
         a = np.asarray(a, dtype=float)
